@@ -643,4 +643,184 @@ example (k : StreamKind) (isLazy : Bool) :
 example : Spec.tableEntry (encOf exImg) 2 (secFileBytes exImg 8) 2 = some 0x8002 ∧
     Spec.tableEntry (encOf exImg) 2 (secFileBytes exImg 8) 3 = none := by decide +kernel
 
+/-! ### 3. truncated files (C17): table read-outs of a prefix that loads
+
+`C17.prefix_sound_section` : section by section, the header of a successfully loaded prefix is all-zero or
+the complete file's, its data absent or the same bytes.  Composed with §2: each table read-out on the prefix is
+refused / empty or equal to what the complete file's load reports (= the specification's value, §2). -/
+
+/-- section `i` of a loaded prefix: the zeroed header without data, or the specification's fields (and
+    no data if the type occupies no file space) -/
+def PSec (img : Bytes) (i : Nat) (b : SecBuf) : Prop :=
+  C17.SecZero b ∨ (Fields img i b ∧ (occupiesFile (sh img i "sh_type") = false → b.data = none))
+
+/-- an object loaded from the first `k` bytes of `img` (the load returned true), after any number of
+    section data requests -/
+structure PrefixLoaded (img : Bytes) (k : Nat) (o : Obj) : Prop where
+  cls : o.cls = clsOf img
+  enc : o.enc = encOf img
+  trans : o.trans = []
+  inv : C01.ObjInv o (img.take k)
+  nsecs : o.secs.length = eh img "e_shnum"
+  secs : ∀ i (hi : i < o.secs.length), PSec img i o.secs[i]
+
+/-- what an accessor is handed for section `i` of a loaded prefix: no data, or the bytes the complete file
+    assigns to the section -/
+structure PReady (img : Bytes) (i : Nat) (b : SecBuf) : Prop where
+  settled : Settled b
+  fields : C17.SecZero b ∨ Fields img i b
+  data : b.data = none ∨
+    (Fields img i b ∧ occupiesFile (sh img i "sh_type") = true ∧ b.view = secFileBytes img i ∧
+      ∀ d, b.data = some d → d = b.view ++ [0] ∧ d.length = b.size.toNat + 1)
+
+theorem fields_of_same {img : Bytes} {i : Nat} {b' b : SecBuf} (h : Fields img i b)
+    (e1 : b'.nameOff = b.nameOff) (e2 : b'.stype = b.stype) (e3 : b'.flags = b.flags) (e4 : b'.addr = b.addr)
+    (e5 : b'.offset = b.offset) (e6 : b'.size = b.size) (e7 : b'.link = b.link) (e8 : b'.info = b.info)
+    (e9 : b'.addrAlign = b.addrAlign) (e10 : b'.entSize = b.entSize) : Fields img i b' :=
+  ⟨by rw [e1]; exact h.nameOff, by rw [e2]; exact h.stype, by rw [e3]; exact h.flags, by rw [e4]; exact h.addr,
+   by rw [e5]; exact h.offset, by rw [e6]; exact h.size, by rw [e7]; exact h.link, by rw [e8]; exact h.info,
+   by rw [e9]; exact h.addrAlign, by rw [e10]; exact h.entSize⟩
+
+/-- **a prefix of a well-formed image that loads** is `PrefixLoaded` (`C17.prefix_sound_section` against the
+    complete load, whose sections show the specification's fields) -/
+theorem prefixLoaded_of_load (img : Bytes) (hwf : WellFormedImage img) (o : Obj) (htr : o.trans = []) (k : Nat)
+    (kind : StreamKind) (isLazy : Bool) (rp : LoadRes)
+    (hp : load o { data := img.take k, kind := kind } isLazy = .ok rp) (hok : rp.ok = true) :
+    PrefixLoaded img k rp.obj := by
+  obtain ⟨rf, hf, hspec, hL⟩ := of_load img o kind isLazy htr hwf
+  have hlen : img.length < 9223372036854775808 := hwf.2.2.2.2.1
+  obtain ⟨f, hps⟩ := C17.prefix_sound o htr img k kind isLazy hlen rp rf hp hf hok
+  obtain ⟨hl, hsec⟩ := C17.prefix_sound_section o htr img k kind isLazy hlen rp rf hp hf hok
+  obtain ⟨_, _, _, _, ht⟩ := C01.load_inv o (img.take k) kind isLazy rp hp
+  refine ⟨hps.cls.trans hL.cls, hps.enc.trans hL.enc, ht.trans htr, C01.load_objInv o _ kind isLazy rp hp,
+    hl.trans hL.nsecs, ?_⟩
+  intro i hi
+  obtain ⟨bf, hbf, hz, hd, _⟩ := hsec i _ (List.getElem?_eq_getElem hi)
+  have hi' : i < rf.obj.secs.length := by rw [← hl]; exact hi
+  have hbf' : bf = rf.obj.secs[i] := by
+    rw [List.getElem?_eq_getElem hi'] at hbf; exact (Option.some.inj hbf).symm
+  obtain ⟨lz, res, hst⟩ := hL.secs i hi'
+  obtain ⟨hF, hN⟩ := fields_of_SecSt img hwf i (by rw [← hL.nsecs]; exact hi') lz res _ _ hst
+  rw [← hbf'] at hF hN
+  rcases hz with hz | hs
+  · exact Or.inl hz
+  · refine Or.inr ⟨fields_of_same hF hs.nameOff hs.stype hs.flags hs.addr hs.offset hs.size hs.link hs.info
+      hs.addrAlign hs.entSize, ?_⟩
+    intro ho
+    rcases hd with hd | hd
+    · exact hd
+    · rw [hd]; exact hN ho
+
+/-- `sections[i]->get_data()` on a loaded prefix -/
+theorem prefix_secResident (img : Bytes) (k : Nat) (o : Obj) (hP : PrefixLoaded img k o) (i : Nat)
+    (hi : i < eh img "e_shnum") :
+    ∃ o1 b1, secResident o i = some (o1, b1) ∧ PrefixLoaded img k o1 ∧ PReady img i b1 := by
+  have hi' : i < o.secs.length := by rw [hP.nsecs]; exact hi
+  have hs0 : StOk o.trans (img.take k) o.stream.kind { st := o.stream } :=
+    ⟨hP.inv.sdata, rfl, fun a ha => by cases ha⟩
+  have hb0 := hP.inv.secs o.secs[i] (List.getElem_mem hi')
+  obtain ⟨h1, h2, h3⟩ := secGetData_spec o.cls o.trans _ o.secs[i] (img.take k) _ hs0 hb0
+  have hset := secGetData_settled o.cls o.trans { st := o.stream } o.secs[i]
+  -- the section after the request
+  have hnb : isNullOrNobitsTy o.secs[i].stype = true →
+      (secGetData o.cls o.trans { st := o.stream } o.secs[i]).2.data = o.secs[i].data :=
+    secGetData_nobits_data _ _ _ _
+  have hps : PSec img i (secGetData o.cls o.trans { st := o.stream } o.secs[i]).2 := by
+    rcases hP.secs i hi' with hz | ⟨hF, hN⟩
+    · left
+      have hty : isNullOrNobitsTy o.secs[i].stype = true := by rw [hz.stype]; decide
+      exact ⟨h3.stype.trans hz.stype, h3.size.trans hz.size, h3.offset.trans hz.offset,
+        h3.nameOff.trans hz.nameOff, h3.flags.trans hz.flags, h3.addr.trans hz.addr, h3.link.trans hz.link,
+        h3.info.trans hz.info, h3.addrAlign.trans hz.addrAlign, h3.entSize.trans hz.entSize,
+        (hnb hty).trans hz.data⟩
+    · right
+      refine ⟨fields_of_same hF h3.nameOff h3.stype h3.flags h3.addr h3.offset h3.size h3.link h3.info
+        h3.addrAlign h3.entSize, ?_⟩
+      intro ho
+      have hty : isNullOrNobitsTy o.secs[i].stype = true := by rw [isNullOrNobits_eq, hF.stype, ho]; rfl
+      exact (hnb hty).trans (hN ho)
+  unfold secResident
+  rw [List.getElem?_eq_getElem hi']
+  refine ⟨_, _, rfl, ⟨hP.cls, hP.enc, hP.trans, ⟨h1.data, ?_, hP.inv.segs⟩, by simp [hP.nsecs], ?_⟩, hset, ?_, ?_⟩
+  · intro b' hb'
+    rcases List.mem_or_eq_of_mem_set hb' with hb' | rfl
+    · exact hP.inv.secs b' hb'
+    · exact h2
+  · intro j hj
+    simp only [List.length_set] at hj
+    by_cases hij : i = j
+    · subst hij; simp only [List.getElem_set_self]; exact hps
+    · simp only [List.getElem_set_ne hij]; exact hP.secs j hj
+  · rcases hps with hz | ⟨hF, _⟩
+    · exact Or.inl hz
+    · exact Or.inr hF
+  · cases hd : (secGetData o.cls o.trans { st := o.stream } o.secs[i]).2.data with
+    | none => exact Or.inl rfl
+    | some d =>
+      right
+      rcases hps with hz | ⟨hF, hN⟩
+      · rw [hz.data] at hd; cases hd
+      · have hocc : occupiesFile (sh img i "sh_type") = true := by
+          cases ho : occupiesFile (sh img i "sh_type")
+          · rw [hN ho] at hd; cases hd
+          · rfl
+        have h2' : LoadedSec [] (secGetData o.cls o.trans { st := o.stream } o.secs[i]).2 (img.take k) := by
+          rw [← hP.trans]; exact h2
+        obtain ⟨e1, e2, _⟩ := C17.LoadedSec.prefix_exact h2' hd
+        have hv : (secGetData o.cls o.trans { st := o.stream } o.secs[i]).2.view = secFileBytes img i := by
+          unfold SecBuf.view secFileBytes
+          rw [hd, if_pos hocc, ← hF.offset, ← hF.size, e1]
+          exact List.take_left' e2
+        refine ⟨hF, hocc, hv, ?_⟩
+        intro d' hd'
+        cases hd'
+        have hv' : (secGetData o.cls o.trans { st := o.stream } o.secs[i]).2.view =
+            slice img (secGetData o.cls o.trans { st := o.stream } o.secs[i]).2.offset.toNat
+              (secGetData o.cls o.trans { st := o.stream } o.secs[i]).2.size.toNat := by
+          unfold SecBuf.view; rw [hd, e1]; exact List.take_left' e2
+        rw [hv']
+        exact ⟨e1, by rw [e1]; simp [e2]⟩
+
+/-- **prefix_strings_sound** (C17 for string tables): on a prefix of a well-formed image that loads, every
+    string lookup — any section index, any 32-bit string index — is refused (null) or returns exactly what the
+    specification says the COMPLETE file holds there (`Spec.strAt` in the section's bytes of `img`, which is what
+    the complete file's load reports: `strings_reports_spec`).  Never a wrong string. -/
+theorem prefix_strings_sound (img : Bytes) (k : Nat) (o : Obj) (hP : PrefixLoaded img k o) (i : Nat)
+    (idx : BitVec 32) :
+    ∃ o1 out, inspect o (.str i idx) = .ok (o1, out) ∧ PrefixLoaded img k o1 ∧
+      (out = .null ∨ out = .str none ∨ out = .str (Spec.strAt (secFileBytes img i) idx.toNat)) := by
+  by_cases hi : i < eh img "e_shnum"
+  · obtain ⟨o1, b1, h1, hP1, hR⟩ := prefix_secResident img k o hP i hi
+    rcases hR.data with hd | ⟨_, _, hv, hn⟩
+    · refine ⟨o1, .str none, ?_, hP1, Or.inr (Or.inl rfl)⟩
+      simp only [inspect, h1, LoadTie.getString_hand, hd]; rfl
+    · cases hd : b1.data with
+      | none =>
+        refine ⟨o1, .str none, ?_, hP1, Or.inr (Or.inl rfl)⟩
+        simp only [inspect, h1, LoadTie.getString_hand, hd]; rfl
+      | some d =>
+        obtain ⟨e1, e2⟩ := hn d hd
+        have hl : b1.view.length = b1.size.toNat := by rw [e1] at e2; simpa using e2
+        refine ⟨o1, .str (Spec.strAt (secFileBytes img i) idx.toNat), ?_, hP1, Or.inr (Or.inr rfl)⟩
+        have : getString b1 idx = .ok (Spec.strAt (secFileBytes img i) idx.toNat) := by
+          rw [LoadTie.getString_hand, hd, ← cstrAt_eq_strAt, ← hv]
+          simp only []
+          rw [e1, ← hl]
+          exact cstrAt_eq_spec _ _ _
+        simp only [inspect, h1, this]; rfl
+  · refine ⟨o, .null, ?_, hP, Or.inl rfl⟩
+    have : secResident o i = none := by
+      unfold secResident
+      rw [List.getElem?_eq_none (by rw [hP.nsecs]; omega)]
+    simp only [inspect, this]; rfl
+
+/-- every prefix of the example image that loads: its string read-outs are null or the complete file's -/
+example (k : Nat) (kind : StreamKind) (isLazy : Bool) (rp : LoadRes)
+    (hp : load {} { data := exImg.take k, kind := kind } isLazy = .ok rp) (hok : rp.ok = true) (idx : BitVec 32) :
+    ∃ o1 out, inspect rp.obj (.str 1 idx) = .ok (o1, out) ∧
+      (out = .null ∨ out = .str none ∨ out = .str (Spec.strAt (secFileBytes exImg 1) idx.toNat)) := by
+  obtain ⟨o1, out, h, _, h'⟩ := prefix_strings_sound exImg k rp.obj
+    (prefixLoaded_of_load exImg exImg_wf {} rfl k kind isLazy rp hp hok) 1 idx
+  exact ⟨o1, out, h, h'⟩
+
 end ElfioVerif.ComposeTables
